@@ -233,10 +233,12 @@ class Indentation(afmformats.AFMForceDistance):
             indentation depth and determining a plateau in the
             resulting Young's modulus (fitting parameter "E").
         """
-        if "preprocessing" in kwargs:
+        if "preprocessing" in kwargs or "preprocessing_options" in kwargs:
+            # (New options alone also require preprocessing the data again.)
+            preprocessing = kwargs.get("preprocessing", self.preprocessing)
             options = kwargs.get("preprocessing_options",
                                  self.preprocessing_options)
-            self.apply_preprocessing(preprocessing=kwargs["preprocessing"],
+            self.apply_preprocessing(preprocessing=preprocessing,
                                      options=options)
         # self.fit_properties is an instance of FitProperties that
         # stores previous fit kwargs. If the given kwargs are
